@@ -114,6 +114,8 @@ func UploadPack(
 	var caps capability.List
 	var wants []plumbing.Hash
 	var ack packp.ACK
+	// newBoundary is the shallow boundary computed for a deepen request.
+	var newBoundary []plumbing.Hash
 	firstRound := true
 	for !done {
 		writec := make(chan error)
@@ -153,6 +155,8 @@ func UploadPack(
 						writec <- fmt.Errorf("unsupported depth: %+v", upreq.Depth)
 						return
 					}
+
+					newBoundary = shupd.Shallows
 
 					if err := shupd.Encode(w); err != nil {
 						writec <- fmt.Errorf("sending shallow-update: %w", err)
@@ -263,13 +267,19 @@ func UploadPack(
 	}
 
 	var objs []plumbing.Hash
-	if len(upreq.Shallows) > 0 && upreq.Depth.IsZero() {
+	if len(upreq.Shallows) > 0 {
 		// The client is shallow: what it has ends at its shallow commits, so
 		// a "have" does not stand for everything below it. As for protocol v2
-		// (serveFetchV2), send what is reachable from the wants minus what is
-		// reachable from the haves, both cut at the client's boundary.
+		// (serveFetchV2), send what is reachable from the wants, cut at the
+		// boundary the client will have afterwards (its own, or the new one
+		// when it deepens -- possibly none, if the deepen reaches the roots),
+		// minus what is reachable from the haves, cut at the client's boundary.
+		boundary := upreq.Shallows
+		if !upreq.Depth.IsZero() {
+			boundary = newBoundary
+		}
 		var newView, clientView []plumbing.Hash
-		newView, err = objectsToUpload(&shallowBoundaryStorer{Storer: st, boundary: upreq.Shallows}, wants, nil)
+		newView, err = objectsToUpload(&shallowBoundaryStorer{Storer: st, boundary: boundary}, wants, nil)
 		if err == nil {
 			clientView, err = objectsToUpload(&shallowBoundaryStorer{Storer: st, boundary: upreq.Shallows}, presentObjects(st, haves), nil)
 		}
